@@ -544,8 +544,9 @@ def run_case(case: Dict) -> CaseResult:
 
 def op_strategy(n: int):
     node = st.integers(0, n - 1)
-    pair = st.tuples(node, node).filter(lambda p: p[0] != p[1])
-    user = st.sampled_from(["admin", "bob"])
+    pairs = [(a, b) for a in range(n) for b in range(n) if a != b]
+    pair = st.sampled_from([(0, 1)] * 3 + pairs)  # most traffic between one client and one target, so sessions pile up
+    user = st.sampled_from(["admin", "admin", "bob"])
     pw = st.sampled_from(["@cur", "@cur", "@cur", "@cur"] + WRONG + PASSWORDS)
     newpw = st.sampled_from(PASSWORDS)
     return st.one_of(
@@ -627,5 +628,5 @@ def worker(ctx: Ctx):
         f"(none) and (2 logins of admin h0->h1), and of depth {plan[2][1]} after the prefixes (3 logins) and (a session "
         f"timed out while the client terminal was stopped, leaving a stale client handle)"
     )
-    nrand = 300 if ctx.tier == "quick" else 4000
+    nrand = 220 if ctx.tier == "quick" else 4000
     hyp_run(ctx, case_strategy(30, excl), run_case, nrand)
